@@ -49,9 +49,10 @@ Definition storable (w : wevent) : bool :=
   match write_event None w {| t_db := []; t_log := [] |} with Ok _ _ => true | Err _ => false end.
 
 Section Store.
-Variable valid : wevent -> bool.       (* outcome of the configured validator pipeline *)
-(* (acknowledgement, broadcast?, operation queued) ; `raw` is the submitted JSON object as an Event would hold it *)
-Definition add_event (now : Z) (d : kvdb) (raw : wevent) : ack * bool * option wop :=
+Variable valid : wevent -> bool.       (* outcome of the configured validator pipeline and of the role check for 'save' *)
+(* (acknowledgement, broadcast?, operation queued) ; `raw` is the submitted JSON object as an Event would hold it;
+   `pending` = WriterThread.in_flight: the ids acknowledged and queued whose "add" the writer has not processed yet *)
+Definition add_event (now : Z) (d : kvdb) (pending : list pystr) (raw : wevent) : ack * bool * option wop :=
   let w := ctor now raw in
   if negb (valid w) then (AckRaise, false, None)
   else if is_ephemeral_kind (w_kind w) then (AckTrue, true, None)
@@ -59,10 +60,11 @@ Definition add_event (now : Z) (d : kvdb) (raw : wevent) : ack * bool * option w
   else match id_bytes w with
        | None => (AckRaise, false, None)
        | Some idb =>
-           match get (primary_key_of idb) d with
-           | Some (REvent _) => (AckDuplicate, false, None)
-           | _ => (AckTrue, true, Some (OAdd w))
-           end
+           if mem_str (w_id w) pending then (AckDuplicate, false, None)
+           else match get (primary_key_of idb) d with
+                | Some (REvent _) => (AckDuplicate, false, None)
+                | _ => (AckTrue, true, Some (OAdd w))
+                end
        end.
 End Store.
 
